@@ -212,12 +212,14 @@ class DirectedAcyclicGraph:
             dag.remove_edge(self.exposure, endpoint)
 
         # Step 4) Directly connect all source nodes pointing to same endpoint (for collider assessment)
+        marry = []
         for n in dag:
             sources = list(dag.predecessors(n))
             if len(sources) > 1:
                 for s1, s2 in combinations(sources, 2):
                     if not (dag.has_edge(s2, s1) or dag.has_edge(s1, s2)):
-                        dag.add_edge(s1, s2)
+                        marry.append((s1, s2))
+        dag.add_edges_from(marry)  # added after the loop, so they are never mistaken for arrows of the DAG
 
         # Step 5) Remove arrow directionality
         uag = dag.to_undirected()
